@@ -216,12 +216,16 @@ class G:
             opts = [s for s in ["***", "---", "___"] if s[0] not in avoid] or ["___"]
         return [self.r.choice(opts)], "<hr />\n"
 
-    CODE_LINES = ["x = 1", "<b>&amp;</b>", "  indented", "*not emph*", "[a](b)", "# no heading", "- no list", "> no quote", "`tick`", "\\escape", "a\tb" , "~~", "``"]
+    CODE_LINES = ["x = 1", "<b>&amp;</b>", "  indented", "*not emph*", "[a](b)", "# no heading", "- no list", "> no quote", "`tick`", "\\escape", "a\tb" , "~~", "``",
+                  "```", "   ```", "  ````", "~~~", "   ~~~", " ~~~~", "    ```", "``` x"]
+    INFOS = [("", ""), ("", ""), ("go", "go"), ("c++", "c++"), ("rust extra words", "rust"), ("c\\+\\+", "c++"), ("a&amp;b", "a&b"), ("x\\_y z", "x_y"), ("\\#lang", "#lang"), ("q&quot;", "q\"")]
 
     def fenced(self):
         ch = self.r.choice("`~")
         n = self.r.choice([3, 3, 4, 5])
-        info = self.r.choice(["", "", "go", "c++", "rust extra words"])
+        info, lang = self.r.choice(self.INFOS)
+        if self.style == "format" and ("\\" in info or "&" in info):
+            info, lang = "go", "go"
         k = self.r.randrange(4)
         body = [self.r.choice(self.CODE_LINES) for _ in range(k)]
         if self.style == "format":
@@ -232,7 +236,6 @@ class G:
         body = [b for b in body if not b.lstrip(" ").startswith(ch * n)]
         if self.style == "format" and body and body[-1] == "":
             body = body[:-1]
-        lang = info.split(" ")[0]
         cls = ' class="language-%s"' % esc(lang) if lang else ""
         html = "<pre><code%s>%s</code></pre>\n" % (cls, "".join(esc(b) + "\n" for b in body))
         return [ch * n + ((" " if self.r.random() < 0.5 or self.style == "format" else "") + info if info else "")] + body + [ch * n], html
